@@ -24,6 +24,9 @@ static const std::vector<Problem<D>> &problems() {
     // larger ones, so a shrinking update meets unchanged leading durations (seeded change C10-m3: factorisation reused when "no
     // duration changed"); the fifth has other durations
     ps.push_back(mk(1, 0.0, 21, 1.0, 1.5)); ps.push_back(mk(2, -1.0, 22, 1.0, 1.5)); ps.push_back(mk(3, 2.5, 23, 1.0, 1.5)); ps.push_back(mk(5, 0.0, 24, 1.0, 1.5)); ps.push_back(mk(3, 0.125, 25, 2.0, 0.75));
+    // sixth: the N = 3 problem's start time and total duration, its durations in another order (1.5, 1, 1): same knot count, same first and last
+    // knot, other inner knots (seeded change C04-m8: "unchanged time grid" decided from the end points)
+    { Problem<D> q = ps[2]; q.T = {1.5, 1.0, 1.0}; set_generic_data(q, 26); ps.push_back(q); }
   }
   return ps;
 }
@@ -57,17 +60,19 @@ static std::string observe(Sp &s, int N, int hint = -2) {
 struct World {
   std::unique_ptr<Sp> X; int m = -1; int hint = 0;   // hint: the caller-held segment hint of the hinted evaluate overloads, kept across updates
   World() : X(new Sp()) {}
-  int nops() const { return 19; }
-  bool enabled(int op) const { return op < 10 || m >= 0; }
+  int nops() const { return 21; }
+  bool enabled(int op) const { return op < 10 || op >= 19 || m >= 0; }
   std::string opname(int op) const {
     static const char *n[] = {"update(dur,N=1)", "update(dur,N=2)", "update(dur,N=3)", "update(dur,N=5)", "update(dur,N=3')", "update(tp,N=1)", "update(tp,N=2)", "update(tp,N=3)", "update(tp,N=5)", "update(tp,N=3')",
                               "getEnergy", "getEnergyGrad", "partial grads", "propagateGrad(unit)", "propagateGrad(dense)", "evaluate grid",
-                              "hinted evaluate (kept hint) inside the first segment", "hinted evaluate (kept hint) at every knot, ascending", "hinted evaluate (kept hint) at the end time"};
+                              "hinted evaluate (kept hint) inside the first segment", "hinted evaluate (kept hint) at every knot, ascending", "hinted evaluate (kept hint) at the end time", "update(dur,N=3 same end knots, other inner knots)", "update(tp,N=3 same end knots, other inner knots)"};
     return n[op];
   }
   void apply(int op) {
     const auto &ps = problems();
-    if (op < 5) { const auto &p = ps[op]; X->update(p.T, p.P, p.t0, p.bc); m = op; }
+    if (op == 19) { const auto &p = ps[5]; X->update(p.T, p.P, p.t0, p.bc); m = 5; }
+    else if (op == 20) { const auto &p = ps[5]; X->update(p.timepoints(), p.P, p.bc); m = 5; }
+    else if (op < 5) { const auto &p = ps[op]; X->update(p.T, p.P, p.t0, p.bc); m = op; }
     else if (op < 10) { const auto &p = ps[op - 5]; X->update(p.timepoints(), p.P, p.bc); m = op - 5; }
     else if (op == 10) (void)X->getEnergy();
     else if (op == 11) (void)X->getEnergyGrad();
